@@ -306,7 +306,8 @@ struct LinAlgGen {
     switch (r.below(7)) {
       case 0: return mat(d - 1) - mat(d - 1);
       case 1: return mat(d - 1) + mat(d - 1);
-      case 2: return mat(d - 1) * mat(d - 1);
+      case 2: if (r.coin(35)) { const ExprNode& m = mat(d - 1); return m * m; }      // the SAME node twice (square of a sum: matrix products do not commute)
+              return mat(d - 1) * mat(d - 1);
       case 3: return transpose(mat(d - 1));
       case 4: return scal(d - 1) * mat(d - 1);
       case 5: if (outer) return col(d - 1) * row(d - 1);        // outer product
